@@ -18,12 +18,12 @@ CHECKS = {
              text="At every StartCommand the trace must show all producers finished, directories present and the response file in place; schedules are chosen by the generator.", ref="4/C04", note=SIM_NOTE),
  "C05": dict(level="fault_enumeration", engine="SIM+E2E", technique="fault-injection property testing: generated fault maps x -k x -j x schedules with trace and log invariants",
              text="Commands are made to fail (several exit codes, with/without touching outputs) and the containment, exit-status, logging and retry clauses are checked on the trace and on the re-loaded logs.", ref="4/C05", note=SIM_NOTE),
- "C06": dict(level="exploration", engine="SIM+E2E", technique="trace-invariant property testing (limits, once-only, retrospective no-idle, termination incl. 'success implies everything needed was started'); all completion orders enumerated for small graphs; real binary as a fifo-jobserver client (tokens returned, concurrency, must terminate)",
+ "C06": dict(level="exploration", engine="SIM+E2E", technique="trace-invariant property testing (limits, once-only, retrospective no-idle, termination incl. 'success implies everything needed was started'); all completion orders enumerated for small graphs; real binary as a fifo-jobserver client (tokens returned on every path incl. stat errors after a command, concurrency, must terminate) and under -l with a scripted load average (LD_PRELOAD getloadavg shim)",
              text="Concurrency and pool limits, at-most-once, no idle slot and termination are checked on traces of generated builds with pools, faults and schedules.", ref="4/C06", note=SIM_NOTE),
  "C07": dict(level="fault_enumeration", engine="SIM+E2E", technique="fault-injection property testing: generated histories stopped at enumerated crash points, runner boundaries, interrupts (SIM) and by real signals / SIGKILL / hook crash points (real binary), recovery compared with the clean-build evaluator",
              text="The last build of a generated history is stopped at one of 13 named points between persistence steps (1st-3rd hit), at any command-runner call, or by an interrupt with commands that did or did not modify their outputs; the real binary is additionally hit by SIGINT/SIGTERM/SIGHUP, SIGKILL of the tree and crashes inside -t recompact. The next invocation must start, succeed, reproduce the clean tree and converge; the interrupt contract (130, lock file, modified outputs removed, children gone) is checked.",
              ref="4/C07", note=SIM_NOTE + " Crash points are the guarded NINJA_VERIF_POINT hooks; power loss is out of reach."),
- "C08": dict(level="fault_enumeration", engine="LOG", technique="stateful property testing (Hypothesis) of BuildLog sessions with every-offset truncation, oracle = reference fold over complete lines",
+ "C08": dict(level="fault_enumeration", engine="LOG", technique="stateful property testing (Hypothesis) of BuildLog sessions with every-offset truncation, oracle = reference fold over complete lines plus a session model (the record completely written last for an output and not cut off since must rule)",
              text="Generated multi-session histories on a real .ninja_log; the file is cut at every byte offset (exhaustive for files up to 4 KiB) and torn tails are continued by later sessions; what ninja loads is compared with an independent fold over the complete lines of the same bytes; recompaction, restat and unsupported versions are checked clause by clause.",
              ref="4/C08", note="Trusted base: M-buildlog in verif/props/C08.py, the probe's op interpreter (cxx/probe_misc.h). Command hashes are ninja's own; lines >= 256 KiB may be dropped (documented)."),
  "C09": dict(level="fault_enumeration", engine="LOG", technique="stateful property testing of DepsLog sessions with every-offset truncation, garbage tails and structured damage, oracle = independent binary-format parser + recorded-deps model",
@@ -56,10 +56,10 @@ CHECKS = {
  "C15": dict(level="exploration", engine="enumerator+libFuzzer", technique="round-trip testing: encode names in the GCC/Clang Makefile dialect, parse, compare; exhaustive over short names x encoders x layouts plus structure-aware fuzzing",
              text="Every name up to L characters over a 16-character special alphabet, in three positions, two encoders and eight layouts, must be read back exactly; libFuzzer decodes bytes into name lists for the same oracle; rejection clauses checked; the byte class behind known finding D11 is excluded by construction and exercised separately.",
              ref="4/C15", note="Trusted base: the encoder models in cxx/ref_depfile.h (ports of mkdeps.c munge and Clang's PrintFilename)."),
- "C16": dict(level="exploration", engine="shell", technique="exhaustive + random differential test against the real /bin/sh: ninja's $in/$out/$in_newline text must be read back as exactly the names",
+ "C16": dict(level="exploration", engine="shell", technique="exhaustive + random differential test against the real /bin/sh: ninja's $in/$out/$in_newline text must be read back as exactly the names, as arguments and as the command word (probe + sh, and the real binary)",
              text="All 1- and 2-byte names and all 3-byte names over the shell-special alphabet (and random names up to 4 KiB in lists of 1-5) are substituted by ninja and handed to /bin/sh -c; a helper prints what it received; directories with decoy files and a private HOME make globbing, expansion and injection visible.",
-             ref="4/C16", note="Trusted base: /bin/sh (dash), cxx/argdump.c. Level 2 (manifest -> real binary -> rspfile life-cycle) is covered by the E2E engine when built."),
- "C14": dict(level="exploration", engine="enumerator+libFuzzer", technique="exhaustive enumeration over {a,b,.,/}^<=L plus coverage-guided fuzzing, oracle = reference normaliser + laws",
+             ref="4/C16", note="Trusted base: /bin/sh (dash), cxx/argdump.c. Level 2 (manifest -> real binary -> rspfile life-cycle incl. empty content over a stale file) and level 3 (name as the command word through the real binary) run the rel binary."),
+ "C14": dict(level="exploration", engine="enumerator+libFuzzer", technique="exhaustive enumeration over {a,b,.,/}^<=L plus coverage-guided fuzzing, oracle = reference normaliser + laws; manifest-level identity of generated spellings in every position of a build statement against the manifest reference",
              text="Every string over the structural alphabet up to a bound is compared with a 12-line reference normaliser and the algebraic laws; libFuzzer extends to arbitrary bytes and very long paths with the same oracle inside the target.", ref="4/C14",
              note="Trusted base: cxx/ref_canon.h (reference), ASan/UBSan. POSIX build only."),
 }
